@@ -31,6 +31,14 @@ Binding, two layers:
  directory, locale) before touching toasty, and separately STARTED interpreters (multiprocessing "spawn", launched with
  their own environment: own str-hash salt PYTHONHASHSEED, working directory, absolute / relative spelling of the pyramid
  directory), in controlled entering orders: mutual exclusion must hold between ANY processes updating one tile.
+ "One tile" is one tile FILE.  Both layers give every updater its OWN PyramidIO object, and the objects of one scenario
+ differ in what does not change the file: default format given (the file's, or another one - the updater then names the
+ file's format in the call) or guessed at construction (before / after the directory held tiles), path scheme left out or
+ spelled out (keyword / positional; also the LXY layout for all), base directory spelled with a trailing or doubled slash,
+ "/./", "x/../x", through a symbolic link (cfg.dflt / cfg.fmt in the specification; TLC refutes the key computed from the
+ object's default format).  Layer 1 also runs the fork history "a process makes its own updates, THEN forks the contending
+ updaters" (cfg.parent; the children inherit its memory image, some also its PyramidIO object; TLC refutes a lock owned by
+ an identity that is memoised per memory image).
 """
 import json
 import os
@@ -557,7 +565,7 @@ def history_scenarios(quick, start_idx):
                         init=((3,), ()), fmt=[p % 2 for p in range(n)], parent=1)
             sc = {"name": "parent-updates-then-forks/update_image/first%d/%d/%s" % (first, n, fmt), "fmt": fmt, "mode": mode, "cfg": cfg,
                   "style": [["full", "slice", "full"]] * RP, "idx": idx, "first": first}
-        sc["deadline"] = 60
+        sc["deadline"] = 90
         out.append(sc)
     if quick:
         add(0, 4, 2)
@@ -710,7 +718,7 @@ def _l1_updater(p, sc, d, sh, inherited=None):
                     return arr[::-1] if flip else arr
                 ToastSampler(pio, sampler, False).visit_callback(real_pos(t), tiles[POS_XY[t]])
                 continue
-            if first and i == 1 and p != first:               # entering order: the designated updater is inside first
+            if first and i == 1 and p not in (first, parent):   # entering order: the designated updater is inside first
                 with cond:                                    # (and, if there is one, the foreign job has finished)
                     cond.wait_for(lambda: entered.value == (2 if sc.get("finisher") else 1), 30)
             with pio.update_image(real_pos(t), masked_mode=mode_of(mode), default="masked", **update_kwargs(sc, p, pio)) as basis:
@@ -760,7 +768,7 @@ def _fork_children(sc, d, sh, pio):
                 _l1_updater(q, sc, d, sh, inherited=pio if q % 2 == 0 else None)       # does not return
                 os._exit(1)
             kids[pid] = q
-    t_end = time.time() + sc.get("deadline", 60) - 10
+    t_end = time.time() + sc.get("deadline", 60) - 30
     while kids and time.time() < t_end:
         pid, _st = os.waitpid(-1, os.WNOHANG)
         if pid == 0:
@@ -1704,7 +1712,8 @@ def run(ctx):
     warnings.simplefilter("ignore")
     rng = ctx.rng
     quick = ctx.quick
-    ctx.rule = ("layer 1: scenario = (format, pixel mode, region/position family, 2-4 forked processes x 1-3 updates), each recording "
+    ctx.rule = ("layer 1: scenario = (format, pixel mode, region/position family, 2-4 forked processes x 1-3 updates; per-updater PyramidIO "
+                "objects differing in default format / scheme spelling / directory spelling / moment of construction; fork history), each recording "
                 "validated by TLC; layer 2a: TLC-simulated behaviours of TileLock stepped through the real update_image; layer 2b: schedules "
                 "of the real code (exhaustive for 2 x 1 with bounded failed attempts, seeded random beyond), each full trace validated by TLC. "
                 "distinct = distinct (scenario, observed event order) / behaviour; non-trivial = at least two updaters contend for one tile")
